@@ -346,7 +346,7 @@ struct Slot {
     idx: AtomicU64,
 }
 
-fn run_inprocess(space: &Space, hang: &Mutex<Option<(String, u64)>>) -> Local {
+fn run_inprocess(space: &Space, hang: &Mutex<Option<(String, u64)>>, on_hang: &dyn Fn(u64, Local)) -> Local {
     let n = ncpu().min(space.len.max(1) as usize);
     let chunk = if space.chunk > 0 { space.chunk } else { (space.len / (n as u64 * 16)).clamp(1, 4096) };
     let next = AtomicU64::new(0);
@@ -418,9 +418,12 @@ fn run_inprocess(space: &Space, hang: &Mutex<Option<(String, u64)>>) -> Local {
             if all {
                 break;
             }
-            if hang.lock().unwrap().is_some() {
-                // a stuck thread cannot be joined: report from here and leave
-                return;
+            let hung = hang.lock().unwrap().clone();
+            if let Some((_, idx)) = hung {
+                // a stuck thread cannot be joined (and the scope cannot be left): the caller's
+                // handler writes the report and exits the process from here
+                on_hang(idx, std::mem::take(&mut total));
+                unreachable!("on_hang returns only by exiting");
             }
             std::thread::sleep(Duration::from_millis(5));
         }
@@ -571,7 +574,12 @@ fn run_sandboxed(def: &CheckDef, space: &Space, pass_args: &[String]) -> Local {
                         ChildEnd::Done(l) => total.lock().unwrap().merge(l),
                         ChildEnd::Died { idx, kind, detail } => {
                             let mut l = Local::default();
-                            l.evals = idx.saturating_sub(lo) + 1;
+                            // what the dead worker had accumulated for [lo, idx) is lost: re-run that part
+                            // (it completes: those cases already passed once and cases are deterministic)
+                            l.evals = 1;
+                            if idx > lo {
+                                queue.lock().unwrap().push_front((lo, idx));
+                            }
                             l.space = space.name.clone();
                             l.idx = idx;
                             let what = format!("{kind} in sandboxed worker on case {idx} of space {}", space.name);
@@ -599,7 +607,10 @@ fn run_sandboxed(def: &CheckDef, space: &Space, pass_args: &[String]) -> Local {
                                 }
                                 ChildEnd::Died { idx, kind, detail } => {
                                     let mut l = Local::default();
-                                    l.evals = idx.saturating_sub(lo) + 1;
+                                    l.evals = 1;
+                                    if idx > lo {
+                                        queue.lock().unwrap().push_front((lo, idx));
+                                    }
                                     l.space = space.name.clone();
                                     l.idx = idx;
                                     let d = (space.describe)(idx);
@@ -717,24 +728,31 @@ fn run_all(id: &'static str, mut def: CheckDef, ctx: &Ctx, t0: Instant) -> ! {
     let mut per_space = vec![];
     let pass_args = vec![ctx.tier.name().to_string()];
     let mut samples: Vec<Value> = vec![];
+    let prev_total: Mutex<Option<Local>> = Mutex::new(None);
     for sp in &def.spaces {
         let ts = Instant::now();
-        let l = if sp.sandbox.is_some() { run_sandboxed(&def, sp, &pass_args) } else { run_inprocess(sp, &hang) };
+        *prev_total.lock().unwrap() = Some(std::mem::take(&mut total));
+        let on_hang = |idx: u64, partial: Local| {
+            // report the hang with what has been gathered so far and leave (threads are stuck)
+            let mut t = Local::default();
+            t.merge(partial);
+            if let Some(prev) = prev_total.lock().unwrap().take() {
+                t.merge(prev);
+            }
+            let d = (sp.describe)(idx);
+            t.space = sp.name.clone();
+            t.idx = idx;
+            let class = d.get("class").and_then(|c| c.as_str()).unwrap_or("").to_string();
+            t.violation(format!("hang@{class}"), format!("case {idx} of space {} exceeded its wall budget of {} ms", sp.name, sp.wall_ms), json!({"case": d}));
+            let samples = vec![json!({"space": sp.name, "index": idx, "case": (sp.describe)(idx)})];
+            let hdef = CheckDef { id: def.id, level: def.level, rule: def.rule.clone(), assumptions: def.assumptions.clone(), spaces: vec![], exhaustive: false, extra: Map::new(), finish: None };
+            finish_with_spaces(id, &hdef, &def.spaces, ctx, t0, t, vec![json!({"space": sp.name, "cases": sp.len, "note": "stopped: a case hung"})], samples, Map::new(), true)
+        };
+        let l = if sp.sandbox.is_some() { run_sandboxed(&def, sp, &pass_args) } else { run_inprocess(sp, &hang, &on_hang) };
+        total = prev_total.lock().unwrap().take().unwrap_or_default();
         per_space.push(json!({"space": sp.name, "cases": sp.len, "evaluations": l.evals, "wall_s": (ts.elapsed().as_secs_f64() * 100.0).round() / 100.0,
             "monitor": if sp.sandbox.is_some() { "sandboxed workers (panic, hang, allocation cap)" } else { "in-process threads (panic, hang)" }}));
         total.merge(l);
-        if let Some((space, idx)) = hang.lock().unwrap().clone() {
-            let d = (sp.describe)(idx);
-            total.space = space.clone();
-            total.idx = idx;
-            let class = d.get("class").and_then(|c| c.as_str()).unwrap_or("").to_string();
-            total.violation(format!("hang@{class}"), format!("case {idx} of space {space} exceeded its wall budget of {} ms", sp.wall_ms), json!({"case": d}));
-            def.exhaustive = false;
-            for i in sample_indices(sp.len).into_iter().take(2) {
-                samples.push(json!({"space": sp.name, "index": i, "case": (sp.describe)(i)}));
-            }
-            break;
-        }
         let per = if def.spaces.len() > 4 { 2 } else { 5 };
         for i in sample_indices(sp.len).into_iter().take(per) {
             if samples.len() < 16 {
@@ -752,6 +770,10 @@ fn run_all(id: &'static str, mut def: CheckDef, ctx: &Ctx, t0: Instant) -> ! {
 
 #[allow(clippy::too_many_arguments)]
 fn finish(id: &str, def: &CheckDef, ctx: &Ctx, t0: Instant, total: Local, per_space: Vec<Value>, samples: Vec<Value>, extra: Map<String, Value>, hung: bool) -> ! {
+    finish_with_spaces(id, def, &def.spaces, ctx, t0, total, per_space, samples, extra, hung)
+}
+#[allow(clippy::too_many_arguments)]
+fn finish_with_spaces(id: &str, def: &CheckDef, spaces: &[Space], ctx: &Ctx, t0: Instant, total: Local, per_space: Vec<Value>, samples: Vec<Value>, extra: Map<String, Value>, hung: bool) -> ! {
     let known = load_known(id);
     let mut new_violations = vec![];
     let mut known_hits = vec![];
@@ -763,7 +785,7 @@ fn finish(id: &str, def: &CheckDef, ctx: &Ctx, t0: Instant, total: Local, per_sp
     }
     // evidence
     let mut cov = Map::new();
-    cov.insert("evaluations".into(), json!(total.evals));
+    cov.insert("evaluations".into(), json!(if hung { total.evals.max(1) } else { total.evals }));
     cov.insert("distinct_nontrivial".into(), json!(total.distinct.len()));
     cov.insert("rule".into(), json!(def.rule));
     cov.insert("samples".into(), json!(samples));
@@ -830,7 +852,7 @@ fn finish(id: &str, def: &CheckDef, ctx: &Ctx, t0: Instant, total: Local, per_sp
     let _ = std::fs::create_dir_all(&dir);
     for (n, v) in new_violations.iter().enumerate() {
         let path = format!("{dir}/{n}.json");
-        let sp = def.spaces.iter().find(|s| s.name == v.space);
+        let sp = spaces.iter().find(|s| s.name == v.space);
         let rep = json!({
             "property": id, "tier": ctx.tier.name(), "seed": ctx.seed as i64, "space": v.space, "index": v.idx,
             "signature": v.sig, "what": v.what, "cases_with_this_signature": v.count,
@@ -881,6 +903,12 @@ fn replay(id: &'static str, build: impl FnOnce(&Ctx) -> CheckDef, path: &str, se
             }
         }
     });
+    if let Some(sb) = sp.sandbox {
+        // same allocation monitor as in the sandbox workers, reported as the replay verdict
+        crate::alloc::set_replay_message(format!("\n[{id}] replay: case exceeds the allocation cap of {} bytes\nVIOLATION property={id} replay={path}\n", sb.hard_cap));
+        crate::alloc::enable();
+        crate::alloc::set_hard_cap(crate::alloc::live().saturating_add(sb.hard_cap));
+    }
     let mut sigs = vec![];
     for _ in 0..2 {
         let mut l = Local::default();
